@@ -217,6 +217,10 @@ func workerMain(args []string) {
 		armWatchdog(fmt.Sprintf("run %d (%s)", r, plan))
 		obs := Execute(c, plan, tp, false)
 		sched := append([]int(nil), tp.Out[planLen:]...)
+		if obs.CapExtended {
+			sched = append([]int(nil), obs.TapeOut...)
+			res.Probes["event-cap-extended"]++
+		}
 		if *hashOnly {
 			fmt.Printf("%d %016x %d\n", r, obs.Sim.Signature(), obs.Sim.Seq())
 			res.Runs++
